@@ -26,10 +26,11 @@ def _apply(root, file, old, new):
     if old not in src:
         return None
     out = src.replace(old, new, 1)
-    try:
-        compile(out, file, "exec")
-    except SyntaxError as e:
-        return ("syntax", str(e))
+    if file.endswith(".py"):
+        try:
+            compile(out, file, "exec")
+        except SyntaxError as e:
+            return ("syntax", str(e))
     return out
 
 
